@@ -27,7 +27,7 @@ func TestC11(t *testing.T) {
 	mon.Main(t, mon.Check{
 		ID:    "C11",
 		Level: "exploration",
-		Rule: "real mailbox.Server (Accept) and mailbox.Client (Dial) over the in-memory relay with real NoiseGrpcConn handshakes and gRPC-like drivers (the listener calls Accept again at once; the dialer re-dials when its connection is done; failed handshakes close the connection), in real time, sessions in parallel. Each session runs a PRNG-ordered script: first pairing with the passphrase (XX, version 2), echo transfer, then a sequence drawn from {close by client, close by server, relay failure window (every relay Send/Recv fails for 2-4 s), idle}, each followed by an echo that must succeed on the current or on a freshly handed-out connection, and finally an intruder: a different client that holds only the original passphrase dials and handshakes for 20 s. Oracles: (1) whenever Accept / Dial hands out connection k+1, connection k's Done channel is already closed (checked at the hand-out), and the acquire/release history is a linearization of a one-slot lock (porcupine); (2) after every close / failure a fresh connection is handed out and the echo works within 90 s (a miss is re-run alone before it counts); (3) after the version-2 pairing both sides hold each other's key, every later connection uses the ECDH-derived stream ids on both sides (read from the connections' addresses and from the relay's log), its handshake is the key-based pattern, the passphrase boxes are deleted, and the intruder completes no handshake and receives no auth payload. A quarter of the sessions use the listener and dialer without noise: the peer writes a message, the reader consumes only a part of it, both sides close, and the next connection handed out must deliver exactly what is written on it (nothing left over from its predecessor), for 2-4 generations. Non-trivial = a session that paired (or exchanged raw data) and reconnected at least once; distinct = script.",
+		Rule: "real mailbox.Server (Accept) and mailbox.Client (Dial) over the in-memory relay with real NoiseGrpcConn handshakes and gRPC-like drivers (the listener calls Accept again at once; the dialer re-dials when its connection is done; failed handshakes close the connection), in real time, sessions in parallel. Each session runs a PRNG-ordered script: first pairing with the passphrase (XX, version 2), echo transfer, then a sequence drawn from {close by client, close by server (the client's pending read must fail within 5 s: the close is signalled), relay failure window (every relay Send/Recv fails for 2-4 s), relay restart (all mailboxes dropped), idle}, each followed by an echo that must succeed on the current or on a freshly handed-out connection, and finally an intruder: a different client that holds only the original passphrase dials and handshakes for 20 s. Oracles: (1) whenever Accept / Dial hands out connection k+1, connection k's Done channel is already closed (checked at the hand-out), and the acquire/release history is a linearization of a one-slot lock (porcupine); (2) after every close / failure a fresh connection is handed out and the echo works within 90 s (a miss is re-run alone before it counts); (3) after the version-2 pairing both sides hold each other's key, every later connection uses the ECDH-derived stream ids on both sides (read from the connections' addresses and from the relay's log), its handshake is the key-based pattern, the passphrase boxes are deleted, and the intruder completes no handshake and receives no auth payload. A quarter of the sessions use the listener and dialer without noise: the peer writes a message, the reader consumes only a part of it, both sides close, and the next connection handed out must deliver exactly what is written on it (nothing left over from its predecessor), for 2-4 generations. Non-trivial = a session that paired (or exchanged raw data) and reconnected at least once; distinct = script.",
 		Assumptions: []string{"real time: liveness verdicts follow the re-run rule; exclusivity and rendezvous verdicts do not depend on time"},
 		NCases: func(tier string) int {
 			if tier == "thorough" {
@@ -321,7 +321,7 @@ func c11Session(seed int64, patience time.Duration) *c11Result {
 	// 2. scripted events
 	steps := 3 + rng.Intn(3)
 	for i := 0; i < steps && res.stuck == "" && len(res.safety) == 0; i++ {
-		ev := []string{"close-by-client", "close-by-server", "relay-failure", "idle"}[rng.Intn(4)]
+		ev := []string{"close-by-client", "close-by-server", "relay-failure", "idle", "relay-restart", "close-by-server"}[rng.Intn(6)]
 		script = append(script, ev)
 		switch ev {
 		case "close-by-client":
@@ -333,7 +333,25 @@ func c11Session(seed int64, patience time.Duration) *c11Result {
 		case "close-by-server":
 			if p, ok := curS.Load().(*net.Conn); ok && p != nil {
 				_ = (*p).Close()
+				// The relay works, so the FIN reaches the client and
+				// its pending read fails at once instead of hanging
+				// until its keepalive gives up (7 s + 3 s).
+				if cur != nil {
+					t0 := time.Now()
+					_ = cur.SetReadDeadline(time.Now().Add(9 * time.Second))
+					_, rerr := cur.Read(make([]byte, 16))
+					if el := time.Since(t0); rerr != nil && el > 5*time.Second {
+						res.stuck = fmt.Sprintf("step %q: the server closed the connection over a working relay but the client's read only failed after %v (%v): the close was not signalled", ev, el.Round(time.Millisecond), rerr)
+						res.stuckStep = "close-not-signalled"
+					}
+					_ = cur.Close()
+					cur = nil
+					res.reconnects++
+				}
 			}
+		case "relay-restart":
+			// the relay loses its in-memory mailboxes
+			relay.Restart()
 		case "relay-failure":
 			failing.Store(true)
 			time.Sleep(time.Duration(2000+rng.Intn(2000)) * time.Millisecond)
